@@ -1710,3 +1710,277 @@ func checkC11EmptyAttached(c *Ctx, n int) {
 		})
 	}
 }
+
+// miniParse runs one hand-built case and hands the last parse observation to judge
+func miniParse(c *Ctx, cs *Case, class string, judge func(cr *CaseResult, obs parseObs)) {
+	cs.Description = describeOps(cs)
+	c.RunCases([]*Case{cs}, func(cr *CaseResult) {
+		c.classifyCase(cr)
+		if cr.Real == nil || cr.Real.dead {
+			return
+		}
+		c.Class(class)
+		var obs parseObs
+		for _, o := range parseBlocks(cr) {
+			obs = o
+		}
+		judge(cr, obs)
+	})
+}
+
+func fieldText(cr *CaseResult, name string) string {
+	if fr, ok := cr.Real.fields[name]; ok {
+		return fmt.Sprint(fr.val.Interface())
+	}
+	return "?"
+}
+
+// checkC01ClusterWithUnknown: under IgnoreUnknown (or an accepting handler) a cluster of known flags that ends in an
+// undeclared letter is passed through / handed over — and the known flags in front of the letter HAVE occurred:
+// their fields say so, their callbacks ran.
+func checkC01ClusterWithUnknown(c *Ctx, n int) {
+	r := c.Rng
+	for i := 0; i < n; i++ {
+		root := &StructDesc{Fields: []FieldDesc{
+			{Name: "Verbose", Exported: true, Kind: "v", Ty: "Lbool", Tag: `short:"v"`},
+			{Name: "Quiet", Exported: true, Kind: "v", Ty: "bool", Tag: `short:"q"`},
+			{Name: "Force", Exported: true, Kind: "v", Ty: "bool", Tag: `short:"f"`}}}
+		cs := &Case{Name: "app", NsDelim: ".", EnvNsDelim: "_"}
+		handler := r.Intn(2) == 0
+		if handler {
+			cs.Handler = "identity"
+		} else {
+			cs.Opts |= flags.IgnoreUnknown
+		}
+		cs.Build = []BuildOp{{Kind: "addgroup", Target: 1, Short: "Application Options", Struct: root}}
+		nv := 1 + r.Intn(3)
+		q := r.Intn(2) == 0
+		cluster := "-" + strings.Repeat("v", nv)
+		if q {
+			cluster += "q"
+		}
+		cluster += []string{"x", "Z", "é"}[r.Intn(3)]
+		argv := []string{cluster, "w"}
+		if r.Intn(2) == 0 {
+			argv = []string{"-f", cluster, "w"}
+		}
+		cs.Ops = []Op{{Kind: "parse", Args: argv}}
+		miniParse(c, cs, fmt.Sprintf("c01/cluster-with-unknown: handler=%v", handler), func(cr *CaseResult, obs parseObs) {
+			wantV := "[" + strings.TrimSpace(strings.Repeat("true ", nv)) + "]"
+			got := fmt.Sprintf("%s %s Verbose=%s Quiet=%s", obs.panic, obs.errKind, fieldText(cr, "Verbose"), fieldText(cr, "Quiet"))
+			want := fmt.Sprintf(" ok Verbose=%s Quiet=%v", wantV, q)
+			in := map[string]interface{}{"case": cs.Description, "argv": argv}
+			if got != want {
+				in["case_file"] = c.saveCase(cr)
+			}
+			c.Check("flags-in-front-of-an-ignored-letter-have-occurred", got == want, "C01:cluster-with-unknown", in, got, want)
+		})
+	}
+}
+
+// checkC03HandlerTakesLast: an unknown-option handler takes the option's detached value off the arguments; when that
+// value is the LAST word, what it returns is empty — and that is what is parsed next: nothing.  The consumed word is
+// not among the remaining arguments.
+func checkC03HandlerTakesLast(c *Ctx, n int) {
+	r := c.Rng
+	for i := 0; i < n; i++ {
+		root := &StructDesc{Fields: []FieldDesc{{Name: "V", Exported: true, Kind: "v", Ty: "bool", Tag: `short:"v"`}}}
+		cs := &Case{Name: "app", NsDelim: ".", EnvNsDelim: "_", Handler: "dropnext"}
+		cs.Build = []BuildOp{{Kind: "addgroup", Target: 1, Short: "Application Options", Struct: root}}
+		argv := []string{"-v", "keep"}
+		if r.Intn(2) == 0 {
+			argv = []string{"keep"}
+		}
+		argv = append(argv, []string{"--colour", "-c"}[r.Intn(2)], "red")
+		trailing := r.Intn(3) == 0
+		want := []string{"keep"}
+		if trailing {
+			argv = append(argv, "more")
+			want = append(want, "more")
+		}
+		cs.Ops = []Op{{Kind: "parse", Args: argv}}
+		miniParse(c, cs, fmt.Sprintf("c03/handler-takes-last: trailing=%v", trailing), func(cr *CaseResult, obs parseObs) {
+			got := fmt.Sprintf("%s %s remaining %q", obs.panic, obs.errKind, obs.ret)
+			wantS := fmt.Sprintf(" ok remaining %q", want)
+			in := map[string]interface{}{"case": cs.Description, "argv": argv, "handler": "takes the word behind the unknown option as its value and returns the rest"}
+			if got != wantS {
+				in["case_file"] = c.saveCase(cr)
+			}
+			c.Check("a-word-the-handler-consumed-is-not-a-remaining-argument", got == wantS, "C03:handler-takes-last", in, got, wantS)
+		})
+	}
+}
+
+// checkC06BadDefaultFirst: one option's environment value does not convert; a REQUIRED option declared behind it is
+// supplied by its default tag (or its own variable).  The call fails with ErrMarshal about the first — never with
+// ErrRequired naming an option that is not missing.
+func checkC06BadDefaultFirst(c *Ctx, n int) {
+	r := c.Rng
+	for i := 0; i < n; i++ {
+		reqTag := `long:"name" required:"yes" default:"anonymous"`
+		env := []EnvVar{{"VFC06_PORT", "abc"}}
+		if r.Intn(2) == 0 {
+			reqTag = `long:"name" required:"yes" env:"VFC06_NAME"`
+			env = append(env, EnvVar{"VFC06_NAME", "n"})
+		}
+		fields := []FieldDesc{
+			{Name: "Port", Exported: true, Kind: "v", Ty: "int", Tag: `long:"port" env:"VFC06_PORT"`},
+			{Name: "Name", Exported: true, Kind: "v", Ty: "str", Tag: reqTag}}
+		root := &StructDesc{Fields: fields}
+		argv := []string{}
+		if r.Intn(2) == 0 {
+			root = &StructDesc{Fields: []FieldDesc{{Name: "Run", Exported: true, Kind: "s", Sub: &StructDesc{Fields: fields}, Tag: `command:"run"`}}}
+			argv = []string{"run"}
+		}
+		cs := &Case{Name: "app", NsDelim: ".", EnvNsDelim: "_", Env: env, CmdHandler: true}
+		cs.Build = []BuildOp{{Kind: "addgroup", Target: 1, Short: "Application Options", Struct: root}}
+		cs.Ops = []Op{{Kind: "parse", Args: argv}}
+		miniParse(c, cs, "c06/bad-default-first", func(cr *CaseResult, obs parseObs) {
+			ok := obs.panic == "" && obs.errKind == "flags" && obs.errType == int(flags.ErrMarshal) && !strings.Contains(obs.errMsg, "name")
+			got := fmt.Sprintf("%s %s type %d %q", obs.panic, obs.errKind, obs.errType, obs.errMsg)
+			in := map[string]interface{}{"case": cs.Description, "argv": argv}
+			if !ok {
+				in["case_file"] = c.saveCase(cr)
+			}
+			c.Check("an-option-its-default-supplies-is-never-named-missing", ok, "C06:bad-default-first", in, got, "ErrMarshal about --port")
+		})
+	}
+}
+
+// checkC07OptionalMidCluster: a short option with an optional argument stands in the middle of a cluster, an
+// undeclared letter behind it: the letter is an unknown option — named by the error, passed through, or handed over.
+func checkC07OptionalMidCluster(c *Ctx, n int) {
+	r := c.Rng
+	for i := 0; i < n; i++ {
+		root := &StructDesc{Fields: []FieldDesc{
+			{Name: "F", Exported: true, Kind: "v", Ty: "bool", Tag: `short:"f"`},
+			{Name: "L", Exported: true, Kind: "v", Ty: "str", Tag: `short:"l" optional:"yes" optional-value:"dflt"`}}}
+		policy := r.Intn(3)
+		cs := &Case{Name: "app", NsDelim: ".", EnvNsDelim: "_"}
+		switch policy {
+		case 1:
+			cs.Opts |= flags.IgnoreUnknown
+		case 2:
+			cs.Handler = "identity"
+		}
+		cs.Build = []BuildOp{{Kind: "addgroup", Target: 1, Short: "Application Options", Struct: root}}
+		letter := []string{"x", "Z"}[r.Intn(2)]
+		argv := []string{"-fl" + letter, "w"}
+		cs.Ops = []Op{{Kind: "parse", Args: argv}}
+		miniParse(c, cs, fmt.Sprintf("c07/optional-mid-cluster: policy=%d", policy), func(cr *CaseResult, obs parseObs) {
+			nCalls := 0
+			for _, l := range obs.logs {
+				if strings.HasPrefix(l, "LOG unknown ") {
+					nCalls++
+				}
+			}
+			got := fmt.Sprintf("%s %s type %d %q remaining %q, %d handler calls, L=%q", obs.panic, obs.errKind, obs.errType, obs.errMsg, obs.ret, nCalls, fieldText(cr, "L"))
+			var ok bool
+			var want string
+			switch policy {
+			case 0:
+				want = "ErrUnknownFlag: unknown flag `" + letter + "'"
+				ok = obs.errKind == "flags" && obs.errType == int(flags.ErrUnknownFlag) && obs.errMsg == "unknown flag `"+letter+"'"
+			case 1:
+				want = "success, the token passed through"
+				ok = obs.errKind == "ok" && fmt.Sprintf("%q", obs.ret) == fmt.Sprintf("%q", argv)
+			default:
+				want = "one handler call, then success with remaining [w]"
+				ok = obs.errKind == "ok" && nCalls == 1 && fmt.Sprintf("%q", obs.ret) == `["w"]`
+			}
+			ok = ok && obs.panic == "" && fieldText(cr, "L") != letter
+			in := map[string]interface{}{"case": cs.Description, "argv": argv}
+			if !ok {
+				in["case_file"] = c.saveCase(cr)
+			}
+			c.Check("an-undeclared-letter-behind-an-optional-argument-option-is-unknown", ok, "C07:optional-mid-cluster", in, got, want)
+		})
+	}
+}
+
+// checkC13SameKeyNextSection: the last key of one section is spelled like the first key of the next, and names a
+// different option there: each entry goes to the option ITS section's name denotes, as the flags would.
+func checkC13SameKeyNextSection(c *Ctx, n int, prop string) {
+	r := c.Rng
+	for i := 0; i < n; i++ {
+		add := &StructDesc{Fields: []FieldDesc{{Name: "AddTag", Exported: true, Kind: "v", Ty: "Lstr", Tag: `long:"tag"`}}}
+		rem := &StructDesc{Fields: []FieldDesc{{Name: "RemTag", Exported: true, Kind: "v", Ty: "Lstr", Tag: `long:"tag"`}}}
+		root := &StructDesc{Fields: []FieldDesc{
+			{Name: "Add", Exported: true, Kind: "s", Sub: add, Tag: `command:"add"`},
+			{Name: "Remove", Exported: true, Kind: "s", Sub: rem, Tag: `command:"remove"`}}}
+		cs := &Case{Name: "app", NsDelim: ".", EnvNsDelim: "_"}
+		cs.Build = []BuildOp{{Kind: "addgroup", Target: 1, Short: "Application Options", Struct: root},
+			{Kind: "setcmd", Target: 1, Attr: "subopt", Vals: []string{"1"}}}
+		k := 1 + r.Intn(2)
+		text := "[add]\n"
+		var wantAdd []string
+		for j := 0; j < k; j++ {
+			text += fmt.Sprintf("tag = a%d\n", j)
+			wantAdd = append(wantAdd, fmt.Sprintf("a%d", j))
+		}
+		if r.Intn(2) == 0 {
+			text += "; comment\n\n"
+		}
+		text += "[remove]\ntag = r1\n"
+		asDefaults := r.Intn(3) == 0
+		cs.Ops = []Op{{Kind: "iniparse", Text: text, AsDefaults: asDefaults}}
+		if asDefaults {
+			cs.Ops = append(cs.Ops, Op{Kind: "parse", Args: []string{}})
+		}
+		miniParse(c, cs, fmt.Sprintf("%s/same-key-next-section: as-defaults=%v", strings.ToLower(prop), asDefaults), func(cr *CaseResult, obs parseObs) {
+			got := fmt.Sprintf("read: %s; add.tag=%s remove.tag=%s", decodeLine(nthLine(cr.Impl, "INI ", 0)), fieldText(cr, "AddTag"), fieldText(cr, "RemTag"))
+			want := fmt.Sprintf("read: INI ok; add.tag=%v remove.tag=[r1]", wantAdd)
+			in := map[string]interface{}{"case": cs.Description, "text": text}
+			if got != want {
+				in["case_file"] = c.saveCase(cr)
+			}
+			c.Check("an-entry-goes-to-the-option-its-own-section-denotes", got == want, prop+":same-key-next-section", in, got, want)
+		})
+	}
+}
+
+// checkC14NumberAfterLongLine: a line longer than a reader's buffer (a comment or a value of 5 000 … 70 000 bytes)
+// stands in front of the faulty line: the error still carries the 1-based number of the faulty LINE.
+func checkC14NumberAfterLongLine(c *Ctx, n int) {
+	r := c.Rng
+	for i := 0; i < n; i++ {
+		root := &StructDesc{Fields: []FieldDesc{
+			{Name: "Name", Exported: true, Kind: "v", Ty: "str", Tag: `long:"name"`},
+			{Name: "Port", Exported: true, Kind: "v", Ty: "int", Tag: `long:"port"`}}}
+		cs := &Case{Name: "app", NsDelim: ".", EnvNsDelim: "_"}
+		cs.Build = []BuildOp{{Kind: "addgroup", Target: 1, Short: "Application Options", Struct: root}}
+		size := []int{4095, 4096, 4097, 5000, 8193, 70000}[r.Intn(6)]
+		long := strings.Repeat("x", size)
+		lines := []string{"[Application Options]"}
+		if r.Intn(2) == 0 {
+			lines = append(lines, "; "+long)
+		} else {
+			lines = append(lines, "name = "+long)
+		}
+		if r.Intn(2) == 0 {
+			lines = append(lines, "port = 1")
+		}
+		bad := []string{"port = eighty", "no equals sign here", "nosuch = 1", "name = \"unterminated"}[r.Intn(4)]
+		lines = append(lines, bad)
+		wantLine := len(lines)
+		text := strings.Join(lines, "\n") + "\nport = 2\n"
+		cs.Ops = []Op{{Kind: "iniparse", Text: text}}
+		miniParse(c, cs, fmt.Sprintf("c14/number-after-long-line: size=%d", size), func(cr *CaseResult, obs parseObs) {
+			first := nthLine(cr.Impl, "INI ", 0)
+			ws := strings.Fields(first + " x x x")
+			ok := ws[1] == "ini" && ws[3] == fmt.Sprint(wantLine)
+			in := map[string]interface{}{"case": "a line of " + fmt.Sprint(size) + " bytes in front of the faulty line " + fmt.Sprintf("%q", bad), "faulty_line_number": wantLine}
+			if !ok {
+				in["case_file"] = c.saveCase(cr)
+			}
+			c.Check("an-error-carries-the-number-of-the-faulty-line", ok, "C14:number-after-long-line", in, cutText(decodeLine(first), 200), fmt.Sprintf("IniError at line %d", wantLine))
+		})
+	}
+}
+
+func cutText(s string, n int) string {
+	if len(s) > n {
+		return s[:n]
+	}
+	return s
+}
